@@ -135,7 +135,15 @@ func VerifH_C19_run() {
 		for i, p := range nonFinal {
 			verifReach("non-final-part")
 			verifReach("non-final-part@" + strconv.Itoa(int(ticks)))
-			verifAssert("C19", "non-final-parts-equal", verifAbsDur(p.Duration-nonFinal[0].Duration) <= verifDurTol || i == 0)
+			// known finding: when PartMinDuration lies within a few nanoseconds above a multiple of a sample duration that is
+			// not a whole number of nanoseconds (e.g. 60 fps and 116666667 ns), the nanosecond truncation of the frame
+			// times makes non-final parts alternate between n and n+1 samples; that input class has its own label so that
+			// any other violation of the clause is still reported
+			eqLabel := "non-final-parts-equal"
+			if rem := pmin % sd; rem != 0 && (rem <= time.Duration(K) || sd-rem <= time.Duration(K)) {
+				eqLabel = "non-final-parts-equal [PartMinDuration within K ns of a multiple of a sample duration with a fractional nanosecond]"
+			}
+			verifAssert("C19", eqLabel, verifAbsDur(p.Duration-nonFinal[0].Duration) <= verifDurTol || i == 0)
 			verifAssert("C19", "part-at-least-85-percent-of-part-target", p.Duration*100 >= target*85-time.Duration(100*verifDurTol))
 			verifAssert("C19", "part-at-most-part-target", p.Duration <= target+verifDurTol)
 			verifAssert("C19", "part-duration-at-least-partminduration", p.Duration >= pmin-verifDurTol)
